@@ -167,6 +167,14 @@ func hItoa(v int64) string {
 	return string(b)
 }
 
+// hIdName renders an identity with the module that declares it (names alone can coincide).
+func hIdName(id *Identity) string {
+	if r := RootNode(id); r != nil {
+		return r.Name + ":" + id.Name
+	}
+	return id.Name
+}
+
 func hTypeSummary(t *YangType) string {
 	if t == nil {
 		return "<nil type>"
@@ -192,7 +200,7 @@ func hTypeSummary(t *YangType) string {
 	if t.IdentityBase != nil {
 		s += " base=" + t.IdentityBase.Name + "["
 		for _, v := range t.IdentityBase.Values {
-			s += v.Name + ","
+			s += hIdName(v) + ","
 		}
 		s += "]"
 	}
@@ -270,7 +278,7 @@ func hDump(ms *Modules) string {
 		for _, id := range ms.Modules[k].Identity {
 			s += " identity " + id.Name + " ["
 			for _, v := range id.Values {
-				s += v.Name + ","
+				s += hIdName(v) + ","
 			}
 			s += "]\n"
 		}
